@@ -111,7 +111,6 @@ def handle (j : Json) : Json :=
   let spec := acceptB canon o i
   let excl :=
     (if HdrDecodedNil canon i then ["HdrDecodedNil"] else []) ++
-    (if HdrNotAsResponse canon i then ["HdrNotAsResponse"] else []) ++
     (if EmptyMapStrict o i then ["EmptyMapStrict"] else [])
   let skipped := skippedB i
   let sel := if skipped || i.responses.isEmpty then none else statusLookup i.responses i.status
